@@ -217,6 +217,46 @@ def _frac_pow(b: Fraction, e: Fraction):
     return Fraction(rn, rd) ** int(e.numerator)
 
 
+def _reduce_radical(b: Fraction, e: Fraction):
+    """b^e (b > 0 rational, e = s/r not an integer, no exact rational value) as coef * m^(frac(e)) with m a positive integer
+    that is r-th-power free: (3/4)^(1/2) -> (1/2, 3).  None when b is not small enough to factor by trial division."""
+    if b <= 0 or e.denominator == 1:
+        return None
+    r = e.denominator
+    whole = math.floor(e)
+    f = e - whole  # in (0,1): f = s/r
+    s_ = f.numerator
+    n, d = b.numerator, b.denominator
+    N = n * d ** (r - 1)  # b = N / d^r
+    if N > 10**14:
+        return None
+    k, m, p_ = 1, N, 2
+    while p_ ** r <= m and p_ < 10**6:
+        while m % (p_ ** r) == 0:
+            m //= p_ ** r
+            k *= p_
+        p_ += 1 if p_ == 2 else 2
+    if k == 1 and d == 1 and whole == 0 and s_ == 1:
+        return None  # already canonical: m^(1/r), m r-th-power free
+    coef = Fraction(k, d) ** s_ * (b ** whole)
+    # b^f = (N^(1/r)/d)^s = (k m^(1/r)/d)^s = (k/d)^s (m^s)^(1/r)
+    M = m ** s_
+    if s_ != 1:
+        if M > 10**14:
+            return None
+        # pull r-th powers out of m^s again
+        k2, p_ = 1, 2
+        while p_ ** r <= M and p_ < 10**6:
+            while M % (p_ ** r) == 0:
+                M //= p_ ** r
+                k2 *= p_
+            p_ += 1 if p_ == 2 else 2
+        coef *= k2
+    if M == 1:
+        return None
+    return coef, M, r
+
+
 def powr(x: Node, e) -> Node:
     e = Fraction(e)
     x = _as_num(x)
@@ -228,6 +268,10 @@ def powr(x: Node, e) -> Node:
         v = _frac_pow(x.val, e)
         if v is not None:
             return const(v, I if (x.sort == I and v.denominator == 1 and e > 0) else R)
+        red = _reduce_radical(Fraction(x.val), e)
+        if red is not None:
+            coef, m, r_ = red
+            return mul(const(coef, R), mk("pow", (const(Fraction(m), R),), Fraction(1, r_), R))
     if x.op == "pow" and e.denominator == 1 and x.val.denominator == 1:
         return powr(x.args[0], x.val * e)
     sort = I if (x.sort == I and e.denominator == 1 and e > 0) else R
